@@ -194,7 +194,15 @@ def run(ctx):
     for name in DELEGATES:
         fn = mod.functions.get(name)
         if fn is None:
-            raise AnalysisError('anchor vanished: petl.io.db:%s' % name)
+            # the one-statement delegate was inlined into the dispatcher: its obligations (no commit of its own, commit /
+            # truncate handed on) are the dispatcher's for its direct calls of _todb_sqlalchemy_connection
+            disp = mod.functions.get('_todb')
+            direct = [c for c in _calls(disp.node) if norm(c.func) == '_todb_sqlalchemy_connection'] if disp is not None else []
+            if not direct:
+                raise AnalysisError('anchor vanished: petl.io.db:%s' % name)
+            for c in direct:
+                _forward(rep, disp, c, ('commit', 'truncate'), 'R17.4')
+            continue
         commits = [c for c in _calls(fn.node) if _is_commit(c)]
         calls = [c for c in _calls(fn.node) if norm(c.func) == '_todb_sqlalchemy_connection']
         if commits:
